@@ -1290,7 +1290,7 @@ fn run_cases(lines: &[String], outdir: &str) {
 /// signals `fetched` once it holds the value it read.
 #[derive(Default)]
 struct Gate {
-    state: Mutex<(bool, bool)>, // (fetched, released)
+    state: Mutex<(bool, bool, bool)>, // (fetched, released, reader finished)
     cv: Condvar,
 }
 struct BlockingDb {
@@ -1415,6 +1415,179 @@ fn f1(rounds: usize) -> bool {
     reproduced
 }
 
+// ------------------------------------------------------------------------------------ conc
+
+/// Coarse-schedule differential for coq/Cache/Conc.v on the real code: `j` whole commits of V, a
+/// reader of (V, key) whose database fetch (if it needs one) is held while `m` further commits run
+/// on the commit handle, then the reader's insert, then the remaining commits.  The model runs the
+/// same schedule under both orderings (`O` unchanged tree, `F` repaired); checklib decides which one
+/// the code follows.
+fn conc_case(r: &mut Rng) -> (String, String) {
+    let v = addr(0xbad);
+    let keys = [0u64, 1, 5];
+    let kind = r.below(10);
+    let basic: Option<InfoT> = match kind {
+        0..=1 => None,
+        2 => Some(InfoT { bal: U256::ZERO, nonce: 0, hash: 1, code: Some(0) }),
+        3..=4 => Some(InfoT { bal: U256::from(r.range(1, 9)), nonce: 0, hash: 1, code: Some(0) }),
+        _ => Some(InfoT { bal: U256::from(r.range(0, 9)), nonce: r.range(0, 2), hash: 3, code: Some(1) }),
+    };
+    let mut dbl: Vec<(u64, U256)> = Vec::new();
+    for k in keys {
+        if (kind >= 5 && r.chance(2, 3)) || r.chance(1, 12) {
+            dbl.push((k, U256::from(r.range(1, 9))));
+        }
+    }
+    let preload = r.chance(2, 3);
+    let prereads: Vec<u64> = (0..r.below(3)).map(|_| *r.pick(&keys)).collect();
+    let ncops = r.range(1, 3) as usize;
+    let mut cops: Vec<(String, EAcc)> = Vec::new();
+    for _ in 0..ncops {
+        let dflt = InfoT::default_info();
+        let mut e = EAcc { a: 0xbad, flags: 1, info: dflt.clone(), orig: dflt, slots: vec![] };
+        let mut tok;
+        match r.below(8) {
+            0..=2 => {
+                e.flags = 1 | 4;
+                tok = "D".to_owned();
+            }
+            3 => {
+                e.info = InfoT { bal: U256::ZERO, nonce: 0, hash: 1, code: Some(0) };
+                tok = "T".to_owned();
+            }
+            x => {
+                let created = x <= 5;
+                e.info = InfoT { bal: U256::from(r.range(1, 9)), nonce: r.range(1, 3), hash: 4, code: Some(2) };
+                if created {
+                    e.flags = 1 | 2;
+                }
+                let mut seen = BTreeSet::new();
+                for _ in 0..r.below(3) {
+                    let k = *r.pick(&keys);
+                    if seen.insert(k) {
+                        let p = U256::from(r.range(1, 9));
+                        // original differs from present, so the slot counts as changed
+                        e.slots.push((U256::from(k), if created { U256::ZERO } else { p + U256::from(1u8) }, p));
+                    }
+                }
+                tok = format!("{} {} {}", if created { "N" } else { "G" }, e.info.tok(), e.slots.len());
+                for (k, _, p) in &e.slots {
+                    write!(tok, " {k:x} {p:x}").unwrap();
+                }
+            }
+        }
+        cops.push((tok, e));
+    }
+    let key = *r.pick(&keys);
+    let j = r.below(ncops as u64 + 1) as usize;
+    let m = r.below((ncops - j) as u64 + 1) as usize;
+    let uni = [0u64, 1, 2, 5];
+    let mut line = format!("conc {} {}", basic.as_ref().map_or("-".to_owned(), InfoT::tok), dbl.len());
+    for (k, x) in &dbl {
+        write!(line, " {k:x} {x:x}").unwrap();
+    }
+    write!(line, " {} {}", preload as u8, prereads.len()).unwrap();
+    for k in &prereads {
+        write!(line, " {k:x}").unwrap();
+    }
+    write!(line, " {}", cops.len()).unwrap();
+    for (t, _) in &cops {
+        write!(line, " {t}").unwrap();
+    }
+    write!(line, " {key:x} {j} {m} {}", uni.len()).unwrap();
+    for k in uni {
+        write!(line, " {k:x}").unwrap();
+    }
+
+    // the real thing
+    let mut db = MemDb::default();
+    if let Some(i) = &basic {
+        db.basic.insert(v, i.real());
+    }
+    for (k, x) in &dbl {
+        db.storage.insert((v, U256::from(*k)), *x);
+    }
+    let gate = Arc::new(Gate::default());
+    let bdb = BlockingDb { inner: db, victim: v, gate: gate.clone(), armed: false.into() };
+    let mut st = ParallelState::new(bdb, true, false);
+    if preload {
+        st.basic_ref(v).unwrap();
+    }
+    for k in &prereads {
+        st.storage_ref(v, U256::from(*k)).unwrap();
+    }
+    if !preload {
+        st.basic_ref(v).unwrap();
+    }
+    for (_, e) in &cops[..j] {
+        st.commit(evm_state(std::slice::from_ref(e)));
+    }
+    st.database.armed.store(true, std::sync::atomic::Ordering::SeqCst);
+    let mut gated = false;
+    let ret;
+    let mut done_commits = j;
+    {
+        let (view, mut commit) = vc::split(&mut st);
+        let g2 = gate.clone();
+        ret = std::thread::scope(|s| {
+            let reader = s.spawn(move || {
+                let x = view.storage(v, U256::from(key)).unwrap();
+                let mut g = g2.state.lock().unwrap();
+                g.2 = true;
+                g2.cv.notify_all();
+                x
+            });
+            {
+                let mut g = gate.state.lock().unwrap();
+                while !g.0 && !g.2 {
+                    g = gate.cv.wait(g).unwrap();
+                }
+                gated = g.0;
+            }
+            if gated {
+                for (_, e) in &cops[j..j + m] {
+                    commit.commit(evm_state(std::slice::from_ref(e)));
+                }
+                done_commits = j + m;
+                let mut g = gate.state.lock().unwrap();
+                g.1 = true;
+                gate.cv.notify_all();
+            }
+            reader.join().unwrap()
+        });
+    }
+    st.database.armed.store(false, std::sync::atomic::Ordering::SeqCst);
+    for (_, e) in &cops[done_commits..] {
+        st.commit(evm_state(std::slice::from_ref(e)));
+    }
+    let mut out = format!(" ret={ret:x} gated={}", gated as u8);
+    match st.cache.accounts.get(&v) {
+        Some(acc) => write!(out, " acct={}/{}", info_tok(acc.account.as_ref()), status_tok(acc.status)).unwrap(),
+        None => out.push_str(" acct=~"),
+    }
+    let cached: Vec<Option<U256>> =
+        uni.iter().map(|k| st.cache.storage.get(&v).and_then(|mm| mm.get(&U256::from(*k)).map(|x| *x))).collect();
+    for (k, c) in uni.iter().zip(cached) {
+        let ans = st.storage_ref(v, U256::from(*k)).unwrap();
+        write!(out, " {k:x}={}:{ans:x}", c.map_or("~".to_owned(), |x| format!("{x:x}"))).unwrap();
+    }
+    (line, out)
+}
+
+fn conc(seed: u64, count: u64, outdir: &str) {
+    let mut rng = Rng::new(seed ^ 0xC0C);
+    let (mut inp, mut imp) = (String::new(), String::new());
+    for _ in 0..count {
+        let mut cr = rng.fork();
+        let (l, o) = conc_case(&mut cr);
+        writeln!(inp, "{l}").unwrap();
+        writeln!(imp, "{o}").unwrap();
+    }
+    fs::create_dir_all(outdir).unwrap();
+    fs::write(format!("{outdir}/conc.in"), inp).unwrap();
+    fs::write(format!("{outdir}/conc.impl"), imp).unwrap();
+}
+
 // ------------------------------------------------------------------------------------ main
 
 fn main() {
@@ -1436,6 +1609,7 @@ fn main() {
             let lines: Vec<String> = fs::read_to_string(&a[2]).unwrap().lines().filter(|l| l.starts_with("case")).map(str::to_owned).collect();
             run_cases(&lines, &a[3]);
         }
+        "conc" => conc(a[2].parse().unwrap(), a[3].parse().unwrap(), &a[4]),
         "f1" => {
             let rounds = a.get(2).map_or(3, |s| s.parse().unwrap());
             let rep = f1(rounds);
